@@ -403,8 +403,25 @@ func cmdCheck(args []string) {
 		trusted = []string{}
 	}
 	var noteList []string
+	unframed := map[string]int{} // "<type> inside <loop>" -> number of fields
 	for _, k := range sortedKeys(notes) {
+		if strings.HasPrefix(k, "heap ") && strings.Contains(k, " is written by an uncontracted callee inside ") {
+			rest := strings.TrimPrefix(k, "heap ")
+			name := rest[:strings.Index(rest, " is written")]
+			where := rest[strings.Index(rest, "inside ")+len("inside "):]
+			typ := name
+			if i := strings.Index(name, "."); i >= 0 {
+				if j := strings.Index(name[i+1:], "."); j >= 0 {
+					typ = name[:i+1+j]
+				}
+			}
+			unframed[typ+" inside "+strings.TrimSuffix(where, ": not framed")]++
+			continue
+		}
 		noteList = append(noteList, fmt.Sprintf("%s (x%d)", k, notes[k]))
+	}
+	for _, k := range sortedKeys(unframed) {
+		noteList = append(noteList, fmt.Sprintf("%d heap arrays of %s are written by an uncontracted callee through a pointer argument: not framed", unframed[k], k))
 	}
 	var inl []string
 	for _, k := range sortedKeys(inlined) {
